@@ -70,13 +70,13 @@ def int1 (I : Integ) (m : Method) (p : Int) (f : Rat → Rat) (a b : Rat) : Rat 
     let (a', b', sign) := checkLimits a b 1
     sign * I m (effParam m p) f a' b'
 
-/-- `Integrate(func, a, b, method, method_parameter)`: equal limits return 0 *before* the method name
-    is looked at; an unknown name is a diagnostic otherwise. -/
+/-- `Integrate(func, a, b, method, method_parameter)` (after fix d39b5c1): the method name is looked at
+    first — `known_method`; equal limits return 0 only for a recognised method, an unknown name is a
+    diagnostic on every interval, degenerate or not. -/
 def integrate1D (I : Integ) (name : String) (p : Int) (f : Rat → Rat) (a b : Rat) : Except Err Rat :=
-  if a = b then .ok 0
-  else match parseMethod name with
-    | some m => .ok (int1 I m p f a b)
-    | none => .error .diag
+  match parseMethod name with
+  | some m => .ok (int1 I m p f a b)
+  | none => .error .diag
 
 def ncallsOf (p : Int) : Int := if p = 0 then 30000 else p
 
